@@ -51,7 +51,21 @@ pub fn canonical_diff_opts(a_img: &[u8], a: &Image, b_img: &[u8], b: &Image, opt
             } else if blob(a_img, x.stack_rva, x.stack_size) != blob(b_img, y.stack_rva, y.stack_size) {
                 d.push(format!("thread {}: stack bytes differ", x.tid));
             }
-            if x.ctx.as_ref().map(|c| &c.raw) != y.ctx.as_ref().map(|c| &c.raw) {
+            // A thread blocked in a system call that was interrupted by the previous dump's stop and
+            // continued restarts the call: the kernel steps rip back by 2 (onto `syscall`) and puts
+            // the call number back into rax. Caught there by one of the two dumps, its context
+            // differs from the other dump's in exactly rax and rip - the target was not quiescent
+            // for this thread, which says nothing about the writer.
+            let restarting = match (&x.ctx, &y.ctx) {
+                (Some(p), Some(q)) if p.raw.len() == q.raw.len() && p.raw.len() >= 256 => {
+                    let only_rax_rip = (0..p.raw.len()).all(|i| p.raw[i] == q.raw[i] || (120..128).contains(&i) || (248..256).contains(&i));
+                    let (lo, hi) = if p.rip < q.rip { (p, q) } else { (q, p) };
+                    let lo_rax = u64::from_le_bytes(lo.raw[120..128].try_into().unwrap());
+                    only_rax_rip && hi.rip - lo.rip == 2 && lo_rax < 1024
+                }
+                _ => false,
+            };
+            if !restarting && x.ctx.as_ref().map(|c| &c.raw) != y.ctx.as_ref().map(|c| &c.raw) {
                 let offs: Vec<usize> = match (&x.ctx, &y.ctx) {
                     (Some(p), Some(q)) => (0..p.raw.len().min(q.raw.len())).filter(|&i| p.raw[i] != q.raw[i]).take(12).collect(),
                     _ => Vec::new(),
